@@ -386,3 +386,33 @@ def write_evidence(ctx, res, level, obligations, discharged, axioms, theorems, n
     path = os.path.join(VERIF, "evidence", ctx.prop + ".json")
     open(path, "w").write(json.dumps(ev, indent=1, sort_keys=True, default=str))
     return path
+
+
+# --------------------------------------------------------------------------- in-Coq cross-check of extraction
+
+def coq_list(xs):
+    return "[" + "; ".join(str(x) for x in xs) + "]"
+
+
+def coq_llist(xss):
+    return "[" + "; ".join(coq_list(x) for x in xss) + "]"
+
+
+def coq_crosscheck(name, imports, checks):
+    """`checks`: list of Coq boolean terms that must evaluate to true (each compares
+    a model call, evaluated by vm_compute inside Coq, with the output the extracted
+    OCaml binary printed).  Returns (number_checked, number_false) or raises."""
+    d = os.path.join(COQ, "cases")
+    os.makedirs(d, exist_ok=True)
+    path = os.path.join(d, "cases_%s.v" % name)
+    body = ["From Coq Require Import ZArith List Bool.", "From SP Require Import Base.EqCheck %s." % imports,
+            "Import ListNotations.", "Open Scope Z_scope.", "Definition checks : list bool := ["]
+    body.append(";\n".join("  (" + c + ")" for c in checks))
+    body.append("].")
+    body.append("Eval vm_compute in (count_false checks).")
+    open(path, "w").write("\n".join(body) + "\n")
+    r = sh("timeout 600 coqc -Q theories SP cases/cases_%s.v 2>&1" % name, cwd=COQ)
+    m = re.search(r"=\s*(\d+)%?", r.stdout)
+    if r.returncode != 0 or not m:
+        raise RuntimeError("in-Coq evaluation failed: " + r.stdout[-400:])
+    return len(checks), int(m.group(1))
